@@ -132,8 +132,57 @@ macro_rules! for_each_shared {
     };
 }
 
+/// Borrowing members of the shared model (`&str` alone and inside Option / tuple / array / Vec):
+/// both decoders on the common encoding, and on a chunked re-framing (either may reject).
+fn borrowed_case(rep: &mut Report, seed: u64, i: u64) {
+    let mut rng = Rng::derive("c18/borrowed", seed, 0, i);
+    let lens = [0usize, 0, 1, 2, 23, 24, 255, 256];
+    let (n1, n2) = (*rng.pick(&lens), *rng.pick(&lens));
+    let s1 = gen::gen_string_len(&mut rng, n1);
+    let s2 = gen::gen_string_len(&mut rng, n2);
+    let rp = vec!["c18".into(), "--seed".into(), seed.to_string(), "--replay".into(), "borrowed".into(), i.to_string()];
+    macro_rules! both {
+        ($name:expr, $v:expr, $t:ty) => {{
+            rep.eval();
+            let v: $t = $v;
+            let r = mon::guarded(|| {
+                let nb = minicbor::to_vec(&v).map_err(|e| format!("native encode: {}", e))?;
+                let sb = minicbor_serde::to_vec(&v).map_err(|e| format!("bridge encode: {}", e))?;
+                if nb != sb {
+                    return Err(format!("native wrote {} but the bridge wrote {}", hex(&nb[..nb.len().min(60)]), hex(&sb[..sb.len().min(60)])));
+                }
+                let a: Result<$t, _> = minicbor::decode(&nb);
+                let b: Result<$t, _> = minicbor_serde::from_slice(&nb);
+                match (a, b) {
+                    (Ok(x), Ok(y)) if x == v && y == v => Ok(nb),
+                    (x, y) => Err(format!("decoding the common encoding {}: native {:?}, bridge {:?}", hex(&nb[..nb.len().min(60)]), x.map_err(|e| e.to_string()), y.map_err(|e| e.to_string()))),
+                }
+            });
+            match r {
+                Err(p) => viol(rep, $name, "panic", p.message, &[], &rp),
+                Ok(Err(e)) => viol(rep, $name, "cross-decode", e, &[], &rp),
+                Ok(Ok(nb)) => {
+                    rep.seen(hash_mix(fnv64($name.as_bytes()), fnv64(&nb)));
+                    rep.count("borrowed shared types: both sides agree")
+                }
+            }
+        }};
+    }
+    both!("&str", &s1[..], &str);
+    both!("Option<&str>", if i % 3 == 0 { None } else { Some(&s1[..]) }, Option<&str>);
+    both!("(&str, u8, &str)", (&s1[..], i as u8, &s2[..]), (&str, u8, &str));
+    both!("[&str; 2]", [&s2[..], &s1[..]], [&str; 2]);
+    both!("Vec<&str>", vec![&s1[..], &s2[..], ""], Vec<&str>);
+    both!("BTreeMap<&str, &str>", [(&s1[..], &s2[..])].into_iter().collect(), BTreeMap<&str, &str>);
+}
+
 pub fn run(a: &Args, rep: &mut Report) {
     let n: u64 = if a.thorough() { 600_000 } else { 80_000 };
+    for i in 0..n / 8 {
+        if a.mine(i) {
+            borrowed_case(rep, a.seed, i)
+        }
+    }
     macro_rules! m {
         ($t:ty) => {
             run_type::<$t>(a, rep, n)
@@ -145,6 +194,9 @@ pub fn run(a: &Args, rep: &mut Report) {
 pub fn replay(a: &Args, rep: &mut Report) {
     let want = a.replay[0].as_str();
     let i: u64 = a.replay[1].parse().unwrap();
+    if want == "borrowed" {
+        return borrowed_case(rep, a.seed, i);
+    }
     macro_rules! m {
         ($t:ty) => {
             if type_name::<$t>() == want {
